@@ -35,7 +35,9 @@ TWO256 = 1 << 256
 
 
 def pmod(p, n=R_ORDER):
-    """coefficients reduced modulo n (symmetric is not needed: only zero-ness matters)"""
+    """coefficients reduced modulo n (symmetric is not needed: only zero-ness matters); n = None: no reduction"""
+    if n is None:
+        return P(p)
     if isinstance(p, int):
         return Poly.const(p % n)
     return Poly({m: c % n for m, c in p.t.items() if c % n})
@@ -93,6 +95,12 @@ class Lin:
         if not self.t:
             return "O"
         return " + ".join("(%r)*%s" % (c, g) for g, c in sorted(self.t.items()))
+
+
+class LinZ(Lin):
+    """exponent vectors over Z (no reduction): multiplicative group of a field whose order is not fixed by the view"""
+    __slots__ = ()
+    MOD = None
 
 
 class LinE(Lin):
